@@ -34,6 +34,7 @@ type TaskCase struct {
 	Before     string `json:"before"` // "", "ok", "fail"
 	After      string `json:"after"`
 	Cond       string `json:"cond"` // "", "true", "false"
+	CondStatus int    `json:"cond_status,omitempty"` // exit status of a false condition (default 1)
 	Pipeline   bool   `json:"pipeline"`
 }
 
@@ -124,7 +125,11 @@ func buildTask(c TaskCase) *task.Task {
 	case "true":
 		t.Condition = "echo K"
 	case "false":
-		t.Condition = "echo K; exit 1"
+		st := c.CondStatus
+		if st == 0 {
+			st = 1
+		}
+		t.Condition = fmt.Sprintf("echo K; exit %d", st)
 	}
 	return t
 }
@@ -222,6 +227,10 @@ func forStatus(k int, alphabet []int, f func(st []int)) {
 }
 
 func main() {
+	if os.Getenv("VERIF_CHILD") != "" {
+		cancelChild()
+		return
+	}
 	common.Init()
 	logrus.SetOutput(io.Discard)
 	res := common.NewResult("taskrun")
@@ -232,10 +241,15 @@ func main() {
 			Cli  *cliCase  `json:"cli"`
 			Cap  *capCase  `json:"cap"`
 			To   *toCase   `json:"to"`
+			Cp   *cpCase   `json:"cp"`
 		}
 		common.ReadReplay(&rf)
 		bad := false
-		if rf.To != nil {
+		if rf.Cp != nil {
+			d := runCancelProc(*rf.Cp)
+			fmt.Printf("cancel-proc case %+v: %s\n", *rf.Cp, d)
+			bad = d != ""
+		} else if rf.To != nil {
 			d := runTimeout(*rf.To)
 			fmt.Printf("timeout case %+v: %s\n", *rf.To, d)
 			bad = d != ""
@@ -360,10 +374,17 @@ func main() {
 				}
 			}
 		}
+		for s := 1; s <= 255; s++ { // a condition that exits with any non-zero status means "skipped"
+			if do(TaskCase{Status: []int{0}, Cond: "false", CondStatus: s}) {
+				goto done
+			}
+		}
 	case "capture":
 		captureUnit(res)
 	case "timeout", "timeout-serial":
 		timeoutUnit(res)
+	case "cancel-proc":
+		cancelProcUnit(res)
 	case "cli3":
 		cliUnit(res, 3, []int{1})
 	case "cli4":
@@ -553,6 +574,17 @@ func runTimeout(c toCase) string {
 		t.Before, t.After = []string{mark("b")}, []string{mark("a")}
 		t.Commands = []string{mark("m1"), mark("m2"), mark("m3")}
 		want = []string{"b", "m1", "m2", "m3", "a"}
+	case "share-before", "share-after": // every hook command gets the full timeout too
+		part := fmt.Sprintf("sleep %.2f", float64(c.TimeoutMs)*0.4/1000)
+		hooks := []string{part + "; " + mark("h1"), part + "; " + mark("h2"), part + "; " + mark("h3")}
+		t.Commands = []string{mark("m1")}
+		if c.Shape == "share-before" {
+			t.Before = hooks
+			want = []string{"h1", "h2", "h3", "m1"}
+		} else {
+			t.After = hooks
+			want = []string{"m1", "h1", "h2", "h3"}
+		}
 	case "share": // each command gets the full timeout: three commands of 0.4 T each
 		part := fmt.Sprintf("sleep %.2f", float64(c.TimeoutMs)*0.4/1000)
 		t.Commands = []string{part + "; " + mark("m1"), part + "; " + mark("m2"), part + "; " + mark("m3")}
@@ -649,7 +681,7 @@ func timeoutUnit(res *common.Result) {
 	}
 	if *common.Unit == "timeout-serial" {
 		for _, ms := range []int{1000, 500} {
-			if do(toCase{TimeoutMs: ms, Shape: "share"}) {
+			if do(toCase{TimeoutMs: ms, Shape: "share"}) || do(toCase{TimeoutMs: ms, Shape: "share-before"}) || do(toCase{TimeoutMs: ms, Shape: "share-after"}) {
 				break
 			}
 		}
